@@ -370,6 +370,7 @@ func findReference(msaIn io.Reader, referenceID string) (fastaio.EncodedFastaRec
 func RegionsFromGFF(anno gff.GFF, refSeqDegapped string) ([]Region, []int, error) {
 
 	IDed := make(map[string][]gff.Feature)
+	IDorder := make([]string, 0) // the IDs in the order in which they first appear in the file
 	other := make([]gff.Feature, 0)
 	for _, f := range anno.Features {
 		if !(f.Type == "CDS" || f.Type == "mature_protein_region_of_CDS") {
@@ -377,6 +378,9 @@ func RegionsFromGFF(anno gff.GFF, refSeqDegapped string) ([]Region, []int, error
 		}
 		if f.HasAttribute("ID") {
 			id, ok := f.Attributes["ID"]
+			if _, seen := IDed[id[0]]; !seen {
+				IDorder = append(IDorder, id[0])
+			}
 			if ok {
 				IDed[id[0]] = append(IDed[id[0]], f)
 			} else {
@@ -387,8 +391,11 @@ func RegionsFromGFF(anno gff.GFF, refSeqDegapped string) ([]Region, []int, error
 		}
 	}
 
+	// iterate in file order, not in map order, so that the order of regions (and therefore of the
+	// mutations written for regions that share a start position) is the same on every run
 	tempcds := make([]Region, 0)
-	for _, f := range IDed {
+	for _, id := range IDorder {
+		f := IDed[id]
 		r, err := CDSRegion2fromGFF(f, refSeqDegapped)
 		if err != nil {
 			return []Region{}, []int{}, err
